@@ -51,6 +51,23 @@ def f_cands(lo, hi, nan, rnd, kind, nrand=6):
         for v in (lo, hi):
             if not math.isinf(v):
                 s.append(math.nextafter(v, 0.0))
+        # every binade of interest once, with a full random significand (both parities of the last bit), in the value's own format
+        for e in range(-24, 40):
+            for sg in (1.0, -1.0):
+                m = 1.0 + rnd.random()
+                v = sg * m * 2.0 ** e
+                if kind == "float":
+                    b_ = struct.unpack("<I", struct.pack("<f", v))[0]
+                    for b2 in (b_ | 1, b_ & ~1):
+                        v2 = struct.unpack("<f", struct.pack("<I", b2))[0]
+                        if lo <= v2 <= hi:
+                            s.append(v2)
+                else:
+                    b_ = struct.unpack("<Q", struct.pack("<d", v))[0]
+                    for b2 in (b_ | 1, b_ & ~1):
+                        v2 = struct.unpack("<d", struct.pack("<Q", b2))[0]
+                        if lo <= v2 <= hi:
+                            s.append(v2)
         for _ in range(nrand):
             a = max(lo, -1e308)
             b = min(hi, 1e308)
